@@ -44,6 +44,13 @@ def gen_cases(chk):
             for b in bounds:
                 cases.append("ts %s %x %s 0 %s %s %s 8 %d %x %s 1" % (rng.choice(("-", "snapshotCmprStep=6", "quantization_intervals=256")), ty, dims, dbits(b), dbits(1e-3),
                                                                     rng.choice(("STTTTTT", "PPPPPPPPPPPP", "STTSTTTT")), rng.choice((0, 2)), rng.getrandbits(16), one))
+    # multi-dimensional variables whose extents do not split evenly into the regression kernels' blocks (a run of longer blocks, then shorter
+    # ones: the history buffer is filled block by block), smooth fields that vary along every dimension, snapshot then temporal steps
+    for t in ((8, 9, 20), (7, 12, 32), (5, 6, 13), (20, 9, 8), (30, 23), (17, 35), (4, 5, 6, 13)):
+        dims = ",".join("%x" % v for v in [0] * (5 - len(t)) + list(t))
+        for ty in (0, 1):
+            for sched in ("STTT", "PPPPPP"):
+                cases.append("ts %s %x %s 0 %s %s %s 0 0 %x %s 1" % (rng.choice(("-", "szMode=SZ_BEST_SPEED")), ty, dims, dbits(0.01), dbits(1e-3), sched, rng.getrandbits(16), one))
     n = 260 if thorough else 70
     for i in range(n):
         small = i % 2 == 0
